@@ -402,6 +402,9 @@ class Interval(NominalValueMixin):
     def __pow__(self, other):
         otherType = other.__class__.__name__
         if otherType in INTEGERS:
+            if other < 0:
+                # x**-k = 1 / x**k ; a pole inside the interval raises ZeroDivisionError
+                return 1 / self.__pow__(-other)
             a, b = numpy.asarray(self.lo**other), numpy.asarray(
                 self.hi**other
             )  # a2,b2 = a**2, b**2
